@@ -70,6 +70,7 @@ class Conn:
         self.sent = []          # replies sent (bytes or "EOF")
         self.half_closed = False
         self.script = deque()   # per-connection replies (take precedence over the device-wide script)
+        self.responder = None   # callable(frame) -> reply entry; takes precedence over both scripts
         self.times = []         # clock reading (time.time(), possibly virtual) when each frame was cut
 
 
@@ -178,7 +179,9 @@ class FakeDevice:
         conn.times.append(time.time())
         if self.on_frame is not None:
             self.on_frame(conn, frame)
-        if conn.script:
+        if conn.responder is not None:
+            rep = dict(conn.responder(frame))     # a device that answers by what was asked, not by position
+        elif conn.script:
             rep = conn.script.popleft()
         elif self.script:
             rep = self.script.popleft()
